@@ -170,7 +170,7 @@ class Scheduler(object):
         self.writers_inside = 0
         self.exclusion_violated = False
         self.store = None         # the traced store (trace_store)
-        self.states = []          # [(position in trace, ((key, id(doc)), ...), [docs])]
+        self.states = []          # [(position in trace, ((key, id(doc)), ...), [docs], [copies])]
         self.iterations = []      # [Iteration]
 
     # ---- called from worker threads -------------------------------------------------------
@@ -209,7 +209,10 @@ class Scheduler(object):
         docs = list(st._documents.items())
         cur = tuple((k, id(d)) for k, d in docs)
         if not self.states or self.states[-1][1] != cur:
-            self.states.append((len(self.trace), cur, [d for _, d in docs]))
+            # the documents themselves (kept alive: their identities stay theirs) and what they
+            # held at that time (shallow copies: the values keep their identities)
+            self.states.append((len(self.trace), cur, [d for _, d in docs],
+                                [dict(d) if isinstance(d, dict) else d for _, d in docs]))
             self.trace.append((self.me(), 'state', [k for k, _ in docs]))
 
     def event(self, kind, *extra):
@@ -456,17 +459,18 @@ def judge_iterations(sched):
     out = []
     trace = sched.trace
     for it in sched.iterations:
-        if it.first is None:
-            continue
+        if it.first is None and not (it.what == 'documents' and it.how == 'exhausted'):
+            continue              # (an expiry pass that looks at no document: nothing to judge)
         desc = {'number': it.num, 'of': it.what, 'thread': it.thread, 'ended': it.how,
                 'handed_out': [h[0] for h in it.handed]}
         # (a) no other thread enters a write section while the iteration is under way: from the
         # first document it hands out to the last time the consumer comes back for the next one.
         # (Once the iterating code runs again after its last document, the reader may leave its
         # section before the consumer learns that there is no more.)
-        hi = max(it.last, it.resumed or 0)
+        hi = max(it.last or 0, it.resumed or 0)
         intruders = [(pos, trace[pos][0]) for pos in range(it.first, hi + 1)
-                     if trace[pos][1] == 'write-enter' and trace[pos][0] != it.thread]
+                     if trace[pos][1] == 'write-enter' and trace[pos][0] != it.thread
+                     ] if it.first is not None else []
         if intruders:
             pos, who = intruders[0]
             out.append({'clause': 'a', 'iteration': desc,
@@ -488,11 +492,11 @@ def judge_iterations(sched):
         handed = [h[1] for h in it.handed]
 
         def project(state):
-            _, cur, docs = state
+            _, cur, _, held = state
             if it.what == 'documents':
                 return [ident for _, ident in cur]
             vals = []
-            for d in docs:
+            for d in held:
                 try:
                     vals.append(id(d.get(it.field)))
                 except Exception:  # pylint: disable=broad-except
